@@ -45,5 +45,25 @@ def main(prop, path):
         from vlib import ch
 
         return ch.replay_record(rec)
-    mod = __import__(f"checks.{prop.lower()}", fromlist=["replay"])
-    return mod.replay(rec)
+    if kind == "sequence":
+        print("compile-sequence counterexample:", rec.get("seq"), [i[0] for i in rec.get("items", [])])
+        print("re-run ./check", prop, "to re-decide it on the current tree")
+        return 1
+    if kind == "e2en":
+        from vlib import jasmapi
+
+        tpl = rec["template"]
+        regex_text = jasmapi.compile_rule(tpl["doc"], tpl.get("macros"))
+        import regex as _regex
+
+        direct = _regex.search(regex_text, rec["stream"]) is not None
+        found, hits, _ = jasmapi.run_consumer(regex_text, jasmapi.decode_stream(rec["stream"]), all_matches=False)
+        print(f"stream={rec['stream']!r}: compiled regex applied directly matches={direct}, consumer reports found={found} {hits}")
+        return 1 if found != direct else 0
+    try:
+        mod = __import__(f"checks.{prop.lower()}", fromlist=["replay"])
+        return mod.replay(rec)
+    except (ImportError, AttributeError):
+        print("no dedicated replay for this record kind; re-run ./check", prop)
+        print({k: v for k, v in rec.items() if k in ("key", "text")})
+        return 1
